@@ -8,9 +8,10 @@ func checkC13(c *Check) {
 	c.Rule = "TLC (RulesGen.tla, alphabet AlphaMarker) enumerates every behaviour mixing markers and references (two ids, forward and backward, key and value positions, inside lists/maps/edges, on scalars / containers / whole and chunked strings, empty and invalid identifiers, marker on marker / reference / record type) up to the length bound; replayed into rules.NewRules. non-trivial = contains a marker or a reference"
 	c.Assumptions = []string{"abs/concretiser of harness/abs.go", "TLC", "bounded length; a reference in key position to a marked float is left unexplored (DESIGN 5.7: the property gives no list of keyable types)"}
 	reasons := []string{"marker", "ident"}
-	n := 7
+	runRulesMC(c, "AlphaMarker", map[string]int{"quick": 8, "thorough": 10}[c.Tier], Lim{Depth: 3, Objs: 8, ABytes: 1 << 30, IDLen: 1000, Refs: 3}, "", "markers")
+	n := 6
 	if c.Tier == "thorough" {
-		n = 8
+		n = 7
 	}
 	runRulesGen(c, genCfg{Alphabet: "AlphaMarker", MaxLen: n, Lim: defaultLim, Reasons: reasons, Prefix: prefixDoc, Label: "markers", Timeout: 30 * time.Minute, Workers: 8})
 }
